@@ -45,3 +45,56 @@ pub fn activation<S: Src>(s: &mut S) -> Outcome {
         detail: format!("server uses inherited descriptor {:?}, expected {:?}", got, want),
     }
 }
+
+/// C16 address schemes, natively: invalid-address rejection on both sides, and - where the
+/// kernel lets us observe it - that the socket name is the address part up to the first ';'.
+pub fn scheme<S: Src>(s: &mut S) -> Outcome {
+    for k in ["LISTEN_FDS", "LISTEN_PID", "LISTEN_FDNAMES"] {
+        std::env::remove_var(k);
+    }
+    let a = draw_addr(s);
+    let text = String::from_utf8_lossy(&a.b).to_string();
+    let (sch, from, to) = classify(&a);
+    let name = String::from_utf8_lossy(&a.b[from..to]).to_string();
+    let dir = std::env::temp_dir().join(format!("verif_c16_{}", std::process::id()));
+    let _ = std::fs::remove_dir_all(&dir);
+    let _ = std::fs::create_dir_all(&dir);
+    let _ = std::env::set_current_dir(&dir);
+    let srv = varlink::Listener::new(&text);
+    let cli = varlink::varlink_connect(&text);
+    let inv = |k: &varlink::ErrorKind| matches!(k, varlink::ErrorKind::InvalidAddress);
+    let srv_invalid = srv.as_ref().err().map(|e| inv(e.kind())).unwrap_or(false);
+    let cli_invalid = cli.as_ref().err().map(|e| inv(e.kind())).unwrap_or(false);
+    let mut bad = None;
+    if srv_invalid != (sch == SCHEME_NONE) || cli_invalid != (sch == SCHEME_NONE) {
+        bad = Some(format!("invalid-address: server {}, client {}, expected {}", srv_invalid, cli_invalid, sch == SCHEME_NONE));
+    } else if sch == SCHEME_UNIX && srv.is_ok() {
+        if !name.is_empty() && !name.contains('/') && !dir.join(&name).exists() {
+            bad = Some(format!("server did not bind the path {:?}", name));
+        } else if cli.is_err() {
+            bad = Some("client does not reach the socket the server bound for the same address".to_string());
+        }
+    } else if sch == SCHEME_ABSTRACT && srv.is_ok() {
+        let table = std::fs::read_to_string("/proc/net/unix").unwrap_or_default();
+        if !table.lines().any(|l| l.ends_with(&format!("@{}", name))) {
+            bad = Some(format!("server did not bind the abstract name {:?}", name));
+        } else if cli.is_err() {
+            bad = Some("client does not reach the abstract socket the server bound for the same address".to_string());
+        }
+    }
+    drop(cli);
+    drop(srv);
+    let _ = std::env::set_current_dir("/");
+    let _ = std::fs::remove_dir_all(&dir);
+    Outcome {
+        reproduced: bad.is_some(),
+        role: match sch {
+            SCHEME_NONE => "other-scheme".into(),
+            SCHEME_TCP => "tcp".into(),
+            SCHEME_ABSTRACT => "unix-abstract".into(),
+            _ => "unix-path".into(),
+        },
+        scenario: format!("address {:?}", text),
+        detail: bad.unwrap_or_default(),
+    }
+}
